@@ -288,7 +288,23 @@ func RunBatch(path string, reg map[string]func(int)) error {
 	return os.WriteFile(path+".out", out, 0o644)
 }
 
-func runCase(c Case, reg map[string]func(int)) (res CaseResult) {
+// runCase runs one case under a watchdog: a harness that does not finish within
+// the limit (the code under test deadlocked) is reported as such and abandoned
+// (its goroutines stay blocked; the next case starts from fresh state).
+func runCase(c Case, reg map[string]func(int)) CaseResult {
+	done := make(chan CaseResult, 1)
+	go func() { done <- runCase1(c, reg) }()
+	select {
+	case r := <-done:
+		return r
+	case <-time.After(caseTimeout):
+		return CaseResult{Harness: c.Harness, Shape: c.Shape, Panic: "timeout: the harness did not finish (deadlock)"}
+	}
+}
+
+var caseTimeout = 10 * time.Second
+
+func runCase1(c Case, reg map[string]func(int)) (res CaseResult) {
 	res.Harness, res.Shape = c.Harness, c.Shape
 	f, ok := reg[c.Harness]
 	if !ok {
